@@ -44,7 +44,7 @@ static struct thread_data g_td;
 
 static thread_restart_state g_arg_ex;
 #define IS_PENDING(s) ((s) == S_PENDING || (s) == S_BOOST)
-#define WORD_PRE (lin_count == 0 && g_loads == 0 && g_cas == 0 && WF(g_td.current_state_) && A_TAG(g_td.current_state_) && REAL_STATE(W_STATE(g_td.current_state_)))
+#define WORD_PRE (lin_count == 0 && g_loads == 0 && g_cas == 0 && WF(g_td.current_state_) && A_TAG1(g_td.current_state_) && REAL_STATE(W_STATE(g_td.current_state_)))
 
 /* thread_data members: lifted bodies, inlined (their own contracts are U2) */
 static struct thread_state get_state(struct thread_data *self)
